@@ -8,16 +8,19 @@ from .. import flow
 PID = "C11"
 LEVEL = "other"
 EXPLANATION = (
-    "Static analysis over MIR of the server crate. Decided: R1 in TowerServiceNoHttp::call every construction of an "
-    "RpcService, every spawn and every future that serves the request is dominated by the Some arm of "
-    "ConnectionGuard::try_acquire; the None arm returns too_many_requests() (HTTP 429) and reaches nothing else; R2 the "
-    "ConnectionState (owner of the permit) is held until the work is done: in every future that owns one and awaits the "
-    "request's work (http::call_with_service, ws::graceful_shutdown) each drop site of the state that can follow the "
-    "start of the work is dominated by the work's completion, and no drop site precedes the work on a path that reaches "
-    "it (siblings: tower service HTTP arm, call_with_service_builder, ws::background_task); R3 no forget-like or "
-    "add_permits call in server/core; R4 ConnectionGuard::new receives ServerConfig.max_connections in start_inner and "
-    "to_service_builder and sizes its semaphore with exactly that number; a slot is an owned permit acquired without "
-    "blocking. NOT decided: the instant-by-instant count (tokio semaphore), aborted-task timing."
+    'Static analysis over MIR of the server crate. Decided: R1 in TowerServiceNoHttp::call every construction of an '
+    'RpcService, every spawn and every future that serves the request is dominated by the Some arm of '
+    'ConnectionGuard::try_acquire; the None arm returns too_many_requests() (HTTP 429) and reaches nothing else; R2 '
+    'the ConnectionState (owner of the permit) is held until the work is done: in every future that owns one and '
+    "awaits the request's work (http::call_with_service, ws::graceful_shutdown) each drop site of the state that can "
+    "follow the start of the work is dominated by the work's completion, and no drop site precedes the work on a path "
+    'that reaches it (siblings: tower service HTTP arm, call_with_service_builder, ws::background_task); R3 no '
+    'forget-like or add_permits call in server/core; R4 ConnectionGuard::new receives ServerConfig.max_connections in '
+    'start_inner and to_service_builder and sizes its semaphore with exactly that number; a slot is an owned permit '
+    'acquired without blocking. R4 also requires that a max_connections setter of a type owning a ConnectionGuard '
+    'rebuilds that guard; R5 Receive::Stopped is produced only on the select arm where the stop future completed (a '
+    'server-side close such as missed pings must end the connection task at once); CFG max_connections reaches '
+    'ServerConfig verbatim. NOT decided: the instant-by-instant count (tokio semaphore), aborted-task timing.'
 )
 RULE_TEXT = "instances = serving constructs vs. the acquire arm, drop sites of ConnectionState vs. completion of the work, forbidden-call scan, limit provenance"
 TRUSTED = ["rustc MIR", "tokio Semaphore / OwnedSemaphorePermit RAII", "hyper drops a cancelled response future"]
